@@ -100,6 +100,15 @@ class State(object):
             return r
         return self._canon(t)
 
+    def same(self, a, b):
+        """Are the two terms known to denote the same value?"""
+        a, b = self.canon(a), self.canon(b)
+        if a == b:
+            return True
+        da, db = self.dom(a), self.dom(b)
+        ca, cb = da.const(), db.const()
+        return ca is not None and ca == cb
+
     def touch(self):
         self._cc = None
 
@@ -173,6 +182,15 @@ class State(object):
             for k in range(n):
                 ok = self.union(mk_byte(a, k), mk_byte(b, k)) and ok
             return ok
+        for x, y in ((a, b), (b, a)):
+            if x[0] == 'cat' and y[0] == 'c':
+                v = y[1]
+                if v < 0 or v >= (1 << (8 * len(x[1]))):
+                    return False
+                ok = True
+                for k, lane in enumerate(x[1]):
+                    ok = self.union(lane, C((v >> (8 * k)) & 0xFF)) and ok
+                return ok
         if frozenset((a, b)) in self._neq_canon():
             return False
         da, db = self.dom(a), self.dom(b)
@@ -535,7 +553,7 @@ class State(object):
     # ---- identity for merging
     def pre_sig(self):
         """Cheap necessary condition for equal mem_sig."""
-        return (self.trace, self.stack, len(self.objs), tuple(len(f) for f in self.frames))
+        return (self.trace, self.stack, len(self.objs), tuple(len(f) for f in self.frames), len(self.tags))
 
     def mem_sig(self):
         items = []
